@@ -262,6 +262,12 @@ Proof.
     + apply set_obj_ok; auto. apply with_msgs_ok; auto. arith.
 Qed.
 
+Lemma set_msgs_ok : forall l x m, objs_ok l -> hdr_chunk m <= max_chunk -> objs_ok (set_msgs l x m).
+Proof.
+  intros l x m Hl Hm. unfold set_msgs. destruct (get_obj l x) as [cur|] eqn:E; [|exact Hl].
+  apply set_obj_ok; auto. pose proof (get_obj_ok _ _ _ Hl E) as (A & B & C). apply with_msgs_ok; auto. split; auto.
+Qed.
+
 Lemma good_weaken : forall l T Tf lv r, good l T ff lv r -> good l T Tf lv r.
 Proof.
   intros l T Tf lv [[cmds ok] upd] (A & B & C & D). cbn [good]. repeat split; auto.
@@ -382,8 +388,8 @@ Proof.
         -- cbn [cmds_ok targets]. rewrite N.eqb_refl, (is_hdr_kind tb). cbn [andb orb].
            rewrite (ws_hdr _ _ (is_hdr_kind tb) Hc). reflexivity.
         -- apply C; cbn [targets]; rewrite N.eqb_refl; cbn; apply orb_true_r.
-      * apply B. apply set_obj_ok; auto. apply with_msgs_ok; auto.
+      * apply set_msgs_ok; auto.
     + cbn [good]. repeat split; auto; try discriminate.
       * eapply cmds_ok_T_mono; [exact HTT | apply Hw].
-      * apply set_obj_ok; auto. apply with_msgs_ok; auto.
+      * apply set_msgs_ok; auto.
 Qed.
